@@ -39,6 +39,7 @@ func init() {
 			{ID: "C13.17", Desc: "a response with a lifetime of zero has a stale-if-error window like any other", Run: func(c *Ctx) { ruleSIEComparisonsInvolveWindow(c, "C13.17") }, MinSites: 1},
 			{ID: "C13.18", Desc: "a 304 freshens the stored Cache-Control with every field line (must-revalidate / stale-if-error on a second line)", Run: func(c *Ctx) { ruleMergeFilter(c, "C13.18") }, MinSites: 1},
 			{ID: "C13.19", Desc: "the Date supplied by the cache is UTC (the window is not shifted by the zone offset)", Run: func(c *Ctx) { ruleDateRepair(c, "C13.19") }, MinSites: 1},
+			{ID: "C13.20", Desc: "the revalidation context's request directives are the parser's result for the request (no reduced copy)", Run: func(c *Ctx) { ruleContextCarriesParsedDirectives(c, "C13.20") }, MinSites: 2},
 		},
 	})
 }
